@@ -1002,6 +1002,10 @@ type DeviceTimeAnsPayload struct {
 func (p DeviceTimeAnsPayload) MarshalBinary() ([]byte, error) {
 	b := make([]byte, 5)
 
+	if p.TimeSinceGPSEpoch < 0 || p.TimeSinceGPSEpoch/time.Second >= (1<<32) {
+		return nil, errors.New("lorawan: TimeSinceGPSEpoch must be between 0 and 2^32 - 1 seconds")
+	}
+
 	seconds := uint32(p.TimeSinceGPSEpoch / time.Second)
 	binary.LittleEndian.PutUint32(b, seconds)
 
